@@ -240,6 +240,33 @@ pub fn arith(m: &mut M, r: &mut Rng, n: u64, which: &str) {
             m.call("arith", "add", spf(r), Some(4), &[A::F(fa), A::R(1)]);
             m.call("arith", "sub", sp(r), Some(5), &[A::R(0), A::F(fa)]);
             m.call("arith", "sub", spf(r), Some(5), &[A::F(fa), A::R(0)]);
+            if i % 5 == 0 {
+                // iterator sums (f64 items and TwoFloat items), every spelling, against the explicit fold
+                let cnt = match r.below(4) { 0 => 0, 1 => 1, 2 => r.range(2, 12), _ => r.range(12, 120) } as usize;
+                let ladder = r.coin();
+                let mut fl = Vec::new();
+                for k in 0..cnt {
+                    fl.push(if ladder { pow2(-(k as i32) - 1) } else { r.f64_in(-80, 80) });
+                }
+                if r.coin() && cnt >= 2 {
+                    // cancellation inside the sequence: a large term, a term near half an ulp of it, the
+                    // large term's negation, then much smaller terms (the running sum drops by ~50 binades)
+                    let big = r.f64_in(-20, 20);
+                    let tie = lo_candidate(r, big);
+                    let e0 = exponent(big);
+                    fl = vec![big, tie, -big, pow2(e0 - 60) * (1.0 + r.below(8) as f64 / 8.0), pow2(e0 - 113), r.f64_in(e0 - 130, e0 - 100)];
+                    if r.coin() {
+                        fl.insert(0, r.f64_in(e0 - 140, e0 - 120));
+                    }
+                }
+                for spn in ["sum_v", "sum_r", "fold"] {
+                    m.call("arith", "sum", spn, Some(6), &[A::FL(fl.clone())]);
+                }
+                let rl: Vec<usize> = (0..r.range(0, 9) as usize).map(|_| r.below(6) as usize).collect();
+                for spn in ["sum_v", "sum_r", "fold"] {
+                    m.call("arith", "sum", spn, Some(6), &[A::RL(rl.clone())]);
+                }
+            }
             if i % 4 == 0 {
                 // feed results back: (a+b)-b, (a-b)+b
                 m.call("arith", "sub", sp(r), Some(6), &[A::R(2), A::R(1)]);
